@@ -199,7 +199,7 @@ func main() {
 	// a distinct set that spans both levels
 	run.Assume("BIP32 'IL >= n / key = 0' (probability 2^-127) is only reportable if it occurs")
 	run.Assume("the password->entropy step of the N-word BIP39 mode and the type-3 hash chain are gocoin-specific; the model pins them to the addresses embedded in /repo/wallet/wallet_test.go")
-	run.Assume("interactive prompts are not driven except the BIP39 passphrase prompt fed through stdin (ASCII passphrases); passwords come from .secret or -stdin")
+	run.Assume("interactive prompts are not driven except the BIP39 passphrase prompt fed through stdin (ASCII and NFKD-stable non-ASCII passphrases); passwords come from .secret or -stdin")
 	run.Assume("in Litecoin mode bech32 addresses are expected with hrp bc/tb as gocoin prints them (no ltc hrp support)")
 	run.Assume("signing itself is C13's subject; here 'the key the wallet signs with' is the key of `-dump`, checked to own the listed address")
 	os.RemoveAll(tmp)
@@ -443,7 +443,9 @@ func genScenario(r *vlib.Rand, id int) *scenario {
 			s.SeedPrefix = ""
 			s.Scrypt = 0 // refused by the wallet in this mode
 			if r.Intn(2) == 0 {
-				s.P39 = []string{"TREZOR", "correct horse", "p", "with trailing space ", "1234567890"}[r.Intn(5)]
+				// (the non-ASCII ones have no Unicode decomposition, so NFKD leaves them alone; their UTF-8 encodings end in
+				// bytes 0x82, 0x9f, 0x8c, 0xb8, 0x86: a typed passphrase is a byte string, whatever its last byte)
+				s.P39 = []string{"TREZOR", "correct horse", "p", "with trailing space ", "1234567890", "has\u0142o", "stra\u00dfe\u00df", "\u043f\u0430\u0440\u043e\u043b\u044c", "l\u00f8s\u00f8", "\u5bc6\u7801\u5bc6"}[r.Intn(10)]
 				s.P39 = strings.TrimRight(s.P39, " ") // the prompt reader strips trailing control chars only; keep it simple
 			}
 		}
